@@ -176,10 +176,12 @@ class HandlerSpec:
         self.ctx = ctx or {}               # (module name, owner qualname, param) -> term: factory parameters bound by
         #                                    the in-repository call chain that instantiates a shared operator template
         self.ctx_key = frozenset(self.ctx.items())
+        self.instance = None               # '<module>::<factory>' of the instantiating call chain, if any
 
     @property
     def qualname(self):
-        return self.module.qualname(self.fn)
+        q = self.module.qualname(self.fn)
+        return "%s@%s" % (q, self.instance) if self.instance else q
 
 
 class Executor:
@@ -383,9 +385,24 @@ class Executor:
             return True
         return False
 
+    def eval_in_scope(self, module, fn, node, ctx=None, roles=None, config=None, capture=None):
+        """Term of the expression *node* evaluated at factory time in the lexical scope of fn (None: module level);
+        None if it has effects or several outcomes.  *capture* collects the parameter bindings of the repository
+        functions entered on the way (the closures they return refer to these parameters)."""
+        self.spec = HandlerSpec(module, fn, None, roles=roles, ctx=ctx)
+        self.inline = True
+        self.undecided = {}
+        self.capture = capture
+        try:
+            st = St.__new__(St)
+            st.config = config or {}
+            return self._const_eval(module, module.scopes.get(fn) if fn is not None else None, node, st, 7)
+        finally:
+            self.capture = None
+
     def _const_eval(self, mod, scope, node, st, salt):
         s0 = St.__new__(St)
-        s0.frames = [Frame(scope.node, mod, {}, scope.qualname, True)]
+        s0.frames = [Frame(scope.node if scope is not None else None, mod, {}, scope.qualname if scope is not None else "<module>", True)]
         s0.trace = []
         s0.memo = {}
         s0.heap = {}
@@ -1512,6 +1529,11 @@ class Executor:
                     env[p] = ("opaque", "default of " + p, ())
                 else:
                     env[p] = ("arg", p)
+        cap = getattr(self, "capture", None)
+        if cap is not None:
+            for p_, t_ in env.items():
+                k_ = (fmod.name, sc.qualname, p_)
+                cap[k_] = t_ if cap.get(k_, t_) == t_ else ("ambiguous",)
         st.trace.append(Eff("inline", node, st.frame.mod, name=sc.qualname, fn=fn))
         st.frames.append(Frame(fn, fmod, env, sc.qualname))
         for s1, out in self.exec_block(fn.body, st):
